@@ -63,6 +63,10 @@ def registry(rng: random.Random) -> Dict[str, Callable[[int], Callable[[], objec
         # radius vector leaning dev/10 towards the axis direction (+ or -)
         return [axis0[i] + scale * (ex[i] + dev_tenths / 10.0 * ez[i]) for i in range(3)]
 
+    def axis_end(which):
+        length = 4e-6 / scale if which == "short" else 1e4 * scale
+        return [axis0[i] + length * ez[i] for i in range(3)]
+
     def cylinder():
         return cb.Cylinder(axis0, axis1, radius_point(0))
 
@@ -113,6 +117,15 @@ def registry(rng: random.Random) -> Dict[str, Callable[[int], Callable[[], objec
         "SemiCylinder.radius_vector": lambda v: lambda: cb.SemiCylinder(axis0, axis1, radius_point(v)),
         "Frustum.radius_vector": lambda v: lambda: cb.Frustum(axis0, axis1, radius_point(v), 0.5 * scale),
         "ExtrudedRing.radius_vector": lambda v: lambda: cb.ExtrudedRing(axis0, axis1, radius_point(v), 0.3 * scale),
+        # axis of length 4e-6 / scale (short) or 1e4 * scale (long); the radius point leans by v thousandths of the radius
+        "Cylinder.radius_vector.short_axis": lambda v: lambda: cb.Cylinder(axis0, axis_end("short"), radius_point(v / 100.0)),
+        "SemiCylinder.radius_vector.short_axis": lambda v: lambda: cb.SemiCylinder(axis0, axis_end("short"), radius_point(v / 100.0)),
+        "Frustum.radius_vector.short_axis": lambda v: lambda: cb.Frustum(axis0, axis_end("short"), radius_point(v / 100.0), 0.5 * scale),
+        "ExtrudedRing.radius_vector.short_axis": lambda v: lambda: cb.ExtrudedRing(axis0, axis_end("short"), radius_point(v / 100.0), 0.3 * scale),
+        "Cylinder.radius_vector.long_axis": lambda v: lambda: cb.Cylinder(axis0, axis_end("long"), radius_point(v / 100.0)),
+        "SemiCylinder.radius_vector.long_axis": lambda v: lambda: cb.SemiCylinder(axis0, axis_end("long"), radius_point(v / 100.0)),
+        "Frustum.radius_vector.long_axis": lambda v: lambda: cb.Frustum(axis0, axis_end("long"), radius_point(v / 100.0), 0.5 * scale),
+        "ExtrudedRing.radius_vector.long_axis": lambda v: lambda: cb.ExtrudedRing(axis0, axis_end("long"), radius_point(v / 100.0), 0.3 * scale),
         "Cylinder.chain.length": lambda v: lambda: cb.Cylinder.chain(cylinder(), scale * v / 10.0),
         "Frustum.chain.length": lambda v: lambda: cb.Frustum.chain(cylinder(), scale * v / 10.0, 0.5 * scale),
         "ExtrudedRing.chain.length": lambda v: lambda: cb.ExtrudedRing.chain(cb.ExtrudedRing(axis0, axis1, radius_point(0), 0.4 * scale), scale * v / 10.0),
